@@ -108,6 +108,7 @@ class AllocatorAwarePointer
                 if (get_allocator() != other.get_allocator())
                 {
                     deallocate();
+                    get() = nullptr;
                     propagate_on_container_copy_assignment(other);
                     size() = other.size();
                     get() = allocate();
@@ -118,6 +119,7 @@ class AllocatorAwarePointer
             if (size() < other.size() || !get())
             {
                 deallocate();
+                get() = nullptr;
                 size() = other.size();
                 get() = allocate();
             }
